@@ -144,37 +144,37 @@ macro_rules! c16_arm {
     };
 }
 
-/// @harness id=c16_cyc_self_loop props=C16,C12 unwind=17 mem=10 cap=1500 term=1 unwindset=find_inner:3
+/// @harness id=c16_cyc_self_loop props=C16,C12 tier=quick unwind=17 mem=10 cap=1500 term=1 unwindset=find_inner:3
 /// one fixture `f(f)` with no parent anywhere: a genuine self-cycle, must be reported as f -> f.
 c16_arm!(c16_cyc_self_loop, { let mut w = World::new(&[C0]); d(&mut w, C0, "f", &["f"]); cycles_arm(w, false) });
-/// @harness id=c16_cyc_two_cycle props=C16,C12 unwind=17 mem=12 cap=1800 term=1 unwindset=find_inner:3
+/// @harness id=c16_cyc_two_cycle props=C16,C12 tier=thorough unwind=17 mem=12 cap=1800 term=1 unwindset=find_inner:3
 /// C0: f(g), C1: g(f): a 2-cycle across files.
 c16_arm!(c16_cyc_two_cycle, { let mut w = World::new(&[C0, C1]); d(&mut w, C0, "f", &["g"]); d(&mut w, C1, "g", &["f"]); cycles_arm(w, false) });
-/// @harness id=c16_cyc_override_parent_first props=C16,C08 unwind=17 mem=12 cap=1800 unwindset=find_inner:3
+/// @harness id=c16_cyc_override_parent_first props=C16,C08 tier=quick unwind=17 mem=12 cap=1800 unwindset=find_inner:3
 /// documented override: C0 `f()` registered first, C1 `f(f)` second: not a cycle.
 c16_arm!(c16_cyc_override_parent_first, { let mut w = World::new(&[C0, C1]); d(&mut w, C0, "f", &[]); d(&mut w, C1, "f", &["f"]); cycles_arm(w, true) });
-/// @harness id=c16_cyc_override_child_first props=C16,C08 unwind=17 mem=12 cap=1800 unwindset=find_inner:3
+/// @harness id=c16_cyc_override_child_first props=C16,C08 tier=quick unwind=17 mem=12 cap=1800 unwindset=find_inner:3
 /// documented override, child conftest registered first: still not a cycle.
 c16_arm!(c16_cyc_override_child_first, { let mut w = World::new(&[C1, C0]); d(&mut w, C1, "f", &["f"]); d(&mut w, C0, "f", &[]); cycles_arm(w, true) });
-/// @harness id=c16_cyc_branch_then_back_edge props=C16,C12 unwind=17 mem=14 cap=2400 term=1 unwindset=find_inner:3
+/// @harness id=c16_cyc_branch_then_back_edge props=C16,C12 tier=thorough unwind=17 mem=14 cap=2400 term=1 unwindset=find_inner:3
 /// f(h, g), g(f), h(): the fixture closing the cycle lists a finished sibling branch before the back edge.
 c16_arm!(c16_cyc_branch_then_back_edge, { let mut w = World::new(&[C0]); d(&mut w, C0, "f", &["h", "g"]); d(&mut w, C0, "g", &["f"]); d(&mut w, C0, "h", &[]); cycles_arm(w, false) });
-/// @harness id=c16_cyc_unknown_dep props=C16 unwind=17 mem=10 cap=1500 unwindset=find_inner:3
+/// @harness id=c16_cyc_unknown_dep props=C16 tier=quick unwind=17 mem=10 cap=1500 unwindset=find_inner:3
 /// f(x) where x is no fixture, g(f): no cycle.
 c16_arm!(c16_cyc_unknown_dep, { let mut w = World::new(&[C0]); d(&mut w, C0, "f", &["x"]); d(&mut w, C0, "g", &["f"]); cycles_arm(w, false) });
 
-/// @harness id=c16_scope_simple props=C16,C12 unwind=17 mem=12 cap=1200 unwindset=find_inner:3
+/// @harness id=c16_scope_simple props=C16,C12 tier=thorough unwind=17 mem=12 cap=1200 unwindset=find_inner:3
 /// C0: f, g(f), all 25 scope pairs: warning iff scope(f) < scope(g).
 c16_arm!(c16_scope_simple, { let mut w = World::new(&[C0]); ds(&mut w, C0, "f", &[]); ds(&mut w, C0, "g", &["f"]); scope_arm(w, C0, false) });
-/// @harness id=c16_scope_two_levels_root_first props=C16,C08 unwind=17 mem=12 cap=1500 unwindset=find_inner:3
+/// @harness id=c16_scope_two_levels_root_first props=C16,C08 tier=thorough unwind=17 mem=12 cap=1500 unwindset=find_inner:3
 /// f defined in C0 (registered first) and C1 with independent scopes; U: g(f): verdict from C1's f.
 c16_arm!(c16_scope_two_levels_root_first, { let mut w = World::new(&[C0, C1, U]); ds(&mut w, C0, "f", &[]); ds(&mut w, C1, "f", &[]); ds(&mut w, U, "g", &["f"]); scope_arm(w, U, true) });
-/// @harness id=c16_scope_two_levels_near_first props=C16,C08 unwind=17 mem=12 cap=1500 unwindset=find_inner:3
+/// @harness id=c16_scope_two_levels_near_first props=C16,C08 tier=thorough unwind=17 mem=12 cap=1500 unwindset=find_inner:3
 /// same, C1 registered before C0.
 c16_arm!(c16_scope_two_levels_near_first, { let mut w = World::new(&[C1, C0, U]); ds(&mut w, C1, "f", &[]); ds(&mut w, C0, "f", &[]); ds(&mut w, U, "g", &["f"]); scope_arm(w, U, true) });
-/// @harness id=c16_scope_override_parent_first props=C16 unwind=17 mem=12 cap=1500 unwindset=find_inner:3
+/// @harness id=c16_scope_override_parent_first props=C16 tier=thorough unwind=17 mem=12 cap=1500 unwindset=find_inner:3
 /// override C1 `f(f)` over C0 `f()` (parent registered first): warning on C1.f iff scope(C0.f) < scope(C1.f).
 c16_arm!(c16_scope_override_parent_first, { let mut w = World::new(&[C0, C1]); ds(&mut w, C0, "f", &[]); ds(&mut w, C1, "f", &["f"]); scope_arm(w, C1, true) });
-/// @harness id=c16_scope_sibling_unrelated props=C16,C08 unwind=17 mem=12 cap=1500 unwindset=find_inner:3
+/// @harness id=c16_scope_sibling_unrelated props=C16,C08 tier=thorough unwind=17 mem=12 cap=1500 unwindset=find_inner:3
 /// an unrelated same-named f in the sibling conftest S registered first; C0: f, g(f): S must not matter.
 c16_arm!(c16_scope_sibling_unrelated, { let mut w = World::new(&[S, C0]); ds(&mut w, S, "f", &[]); ds(&mut w, C0, "f", &[]); ds(&mut w, C0, "g", &["f"]); scope_arm(w, C0, true) });
